@@ -326,7 +326,7 @@ end Resolution
 
 /-! ## Second audit round: the sender lookup with any querier (P2), the reference lists of a remote proto event (P1)
 
-Sites: lean/VModel/PanicSites.md §7 (every call of a `spec.UserIDForSender`) and §6 (event_builder.go). -/
+Sites: lean/VModel/PanicSites.md §7 (every call of a `spec.UserIDForSender`) and §8 (event_builder.go). -/
 
 section Querier
 open V.Auth V.AuthRules
@@ -375,7 +375,7 @@ theorem no_panic_allowed_nil_querier (e : Event) (p : Provider) (sig : Bool) (hr
         exact this hca
 
 /-- the former crash, kernel-checked to be refused: an org.matrix.msc4014 create event from the key `Zm9v` (no user ID),
-    and an aliases event from it in a room whose create event is fine; the same two events from a user ID are decided
+    and an aliases event from it in a room whose create event is fine; the same two events from a user ID are accepted
     as before.  (Non-vacuity of the hypotheses of the theorems above as well: room ID `!room:hs1`.) -/
 def exCreate (sender : Bytes) : Event :=
   { ver := b!"org.matrix.msc4014", eventID := b!"$c", obj :=
@@ -390,7 +390,7 @@ theorem nil_querier_witnesses :
     allowedFreshNilQ (exCreate b!"Zm9v") (Provider.ofEvents []) = .notAllowed ∧
     allowedFreshNilQ (exAliases b!"Zm9v") (Provider.ofEvents [exCreate b!"@creator:hs1"]) = .notAllowed ∧
     allowedFreshNilQ (exCreate b!"@creator:hs1") (Provider.ofEvents []) = .ok ∧
-    allowedFreshNilQ (exAliases b!"@creator:hs1") (Provider.ofEvents [exCreate b!"@creator:hs1"]) = .notAllowed := by
+    allowedFreshNilQ (exAliases b!"@creator:hs1") (Provider.ofEvents [exCreate b!"@creator:hs1"]) = .ok := by
   decide +kernel
 
 end Querier
